@@ -45,87 +45,101 @@ type Session struct {
 
 // fault class and syntactic position -> statement(s) that fail at run time (all of them compile)
 var faultSnippets = map[string]string{
-	"arith-asg":          `t = 1 + "s"`,
-	"arith-if":           `if 1 + "s" > 0 { t = 1 }`,
-	"arith-elseif":       `if false { t = 0 } else if 2 * "s" > 0 { t = 1 }`,
-	"arith-forinit":      `for k = 1 - "s"; k < 1; k += 1 { t = 1 }`,
-	"arith-forcond":      `for k = 0; k < 1 + "s"; k += 1 { t = 1 }`,
-	"arith-forstep":      `for k = 0; k < 2; k += "s" { t = 1 }`,
-	"arith-return":       `return 1 + "s"`,
-	"arith-arg":          `ev(1 + "s")`,
-	"arith-conc":         "conc {\n t = 1 + \"s\"\n u = 2\n }",
-	"div-zero":           `t = 7 / 0`,
-	"div-zero-if":        `if 7 / zero > 1 { t = 1 }`,
-	"cmp-asg":            `t = 1 < "s"`,
-	"cmp-if":             `if "s" > 1 { t = 1 }`,
-	"cmp-return":         `return true == 1`,
-	"logic-asg":          `t = 1 && true`,
-	"logic-if":           `if true || "s" { t = 1 }`,
-	"cond-notbool":       `if 1 { t = 1 }`,
-	"cond-notbool-for":   `for k = 0; 1; k += 1 { t = 1 }`,
-	"not-nonbool":        `t = !1`,
-	"not-nonbool-if":     `if !fobj.I { t = 1 }`,
-	"not-nonbool-return": `return !"s"`,
-	"undef-var":          `t = nosuch + 1`,
-	"undef-var-if":       `if nosuch > 1 { t = 1 }`,
-	"undef-var-return":   `return nosuch`,
-	"undef-var-arg":      `ev(nosuch)`,
-	"undef-var-range":    `forRange k := nosuch { t = 1 }`,
-	"undef-func":         `nosuchfn(1)`,
-	"undef-func-if":      `if nosuchfn(1) { t = 1 }`,
-	"undef-method":       `fobj.NoSuch()`,
-	"undef-method-asg":   `t = fobj.NoSuch(1)`,
-	"undef-three":        `fobj.In.NoSuch()`,
-	"undef-field":        `t = fobj.NoField + 1`,
-	"undef-field-if":     `if fobj.NoField > 1 { t = 1 }`,
-	"undef-field-set":    `fobj.NoField = 1`,
-	"undef-obj-set":      `nosuchobj.F = 1`,
-	"nil-deref":          `t = nilobj.I`,
-	"nil-deref-if":       `if nilobj.I > 1 { t = 1 }`,
-	"nil-deref-set":      `nilobj.I = 1`,
-	"nil-deref-2":        `t = fobj.NilIn.I`,
-	"nil-deref-2-if":     `if fobj.NilIn.I == 0 { t = 1 }`,
-	"nil-deref-call":     `fobj.NilIn.M()`,
-	"nil-method":         `nilobj.M()`,
-	"index-read":         `t = farr[9]`,
-	"index-read-if":      `if farr[9] > 1 { t = 1 }`,
-	"index-read-return":  `return farr[9]`,
-	"index-write":        `farr[9] = 1`,
-	"index-empty":        `t = fempty[0]`,
-	"index-var":          "big = 99\n    t = farr[big]",
-	"index-neg":          `t = farr[-1]`,
-	"badkey-kind":        `t = fms[1]`,
-	"badkey-kind-set":    `fms[1] = 2`,
-	"mapkey-undef":       `t = fms[nosuch]`,
-	"index-str":          `t = farr["k"]`,
-	"index-nonmap":       `t = fobj["k"]`,
-	"argcount":           `ev2(1)`,
-	"argcount-more":      `ev(1, 2, 3)`,
-	"argkind":            `evint("s")`,
-	"argkind-meth":       `fobj.MI("s")`,
-	"store-kind":         `fobj.I = "s"`,
-	"store-kind-bool":    `fobj.B = 3`,
-	"store-value":        `fval.I = 3`,
-	"store-scalar":       `fnum = 3`,
-	"panic-func":         `boomfn()`,
-	"panic-func-if":      `if boomfn() { t = 1 }`,
-	"panic-func-arg":     `ev(boomfn())`,
-	"panic-func-return":  `return boomfn()`,
-	"panic-method":       `fobj.Boom()`,
-	"panic-conc":         "conc {\n boomfn()\n t = 1\n fobj.Boom()\n }",
-	"nil-func":           `nilfn()`,
-	"break-outside":      `break`,
-	"continue-outside":   `continue`,
-	"unbounded-for":      `for k = 0; k < 1; k += 0 { t = 1 }`,
-	"unbounded-nested":   "for k = 0; k < 3; k += 1 {\n for k = 0; k < 1; k += 1 { t = 1 }\n }",
-	"range-noniter":      `forRange k := fobj { t = 1 }`,
-	"range-int":          `forRange k := fnum { t = 1 }`,
-	"four-level":         `t = fobj.In.X.Y`,
+	"arith-asg":             `t = 1 + "s"`,
+	"arith-if":              `if 1 + "s" > 0 { t = 1 }`,
+	"arith-elseif":          `if false { t = 0 } else if 2 * "s" > 0 { t = 1 }`,
+	"arith-forinit":         `for k = 1 - "s"; k < 1; k += 1 { t = 1 }`,
+	"arith-forcond":         `for k = 0; k < 1 + "s"; k += 1 { t = 1 }`,
+	"arith-forstep":         `for k = 0; k < 2; k += "s" { t = 1 }`,
+	"arith-return":          `return 1 + "s"`,
+	"arith-arg":             `ev(1 + "s")`,
+	"arith-conc":            "conc {\n t = 1 + \"s\"\n u = 2\n }",
+	"div-zero":              `t = 7 / 0`,
+	"div-zero-if":           `if 7 / zero > 1 { t = 1 }`,
+	"cmp-asg":               `t = 1 < "s"`,
+	"cmp-if":                `if "s" > 1 { t = 1 }`,
+	"cmp-return":            `return true == 1`,
+	"logic-asg":             `t = 1 && true`,
+	"logic-if":              `if true || "s" { t = 1 }`,
+	"cond-notbool":          `if 1 { t = 1 }`,
+	"cond-notbool-for":      `for k = 0; 1; k += 1 { t = 1 }`,
+	"not-nonbool":           `t = !1`,
+	"not-nonbool-if":        `if !fobj.I { t = 1 }`,
+	"not-nonbool-return":    `return !"s"`,
+	"undef-var":             `t = nosuch + 1`,
+	"undef-var-if":          `if nosuch > 1 { t = 1 }`,
+	"undef-var-return":      `return nosuch`,
+	"undef-var-arg":         `ev(nosuch)`,
+	"undef-var-range":       `forRange k := nosuch { t = 1 }`,
+	"undef-func":            `nosuchfn(1)`,
+	"undef-func-if":         `if nosuchfn(1) { t = 1 }`,
+	"undef-method":          `fobj.NoSuch()`,
+	"undef-method-asg":      `t = fobj.NoSuch(1)`,
+	"undef-three":           `fobj.In.NoSuch()`,
+	"undef-field":           `t = fobj.NoField + 1`,
+	"undef-field-if":        `if fobj.NoField > 1 { t = 1 }`,
+	"undef-field-set":       `fobj.NoField = 1`,
+	"undef-obj-set":         `nosuchobj.F = 1`,
+	"nil-deref":             `t = nilobj.I`,
+	"nil-deref-if":          `if nilobj.I > 1 { t = 1 }`,
+	"nil-deref-set":         `nilobj.I = 1`,
+	"nil-deref-2":           `t = fobj.NilIn.I`,
+	"nil-deref-2-if":        `if fobj.NilIn.I == 0 { t = 1 }`,
+	"nil-deref-call":        `fobj.NilIn.M()`,
+	"nil-method":            `nilobj.M()`,
+	"index-read":            `t = farr[9]`,
+	"index-read-if":         `if farr[9] > 1 { t = 1 }`,
+	"index-read-return":     `return farr[9]`,
+	"index-write":           `farr[9] = 1`,
+	"index-empty":           `t = fempty[0]`,
+	"index-var":             "big = 99\n    t = farr[big]",
+	"index-neg":             `t = farr[-1]`,
+	"badkey-kind":           `t = fms[1]`,
+	"badkey-kind-set":       `fms[1] = 2`,
+	"mapkey-undef":          `t = fms[nosuch]`,
+	"index-str":             `t = farr["k"]`,
+	"index-nonmap":          `t = fobj["k"]`,
+	"argcount":              `ev2(1)`,
+	"argcount-more":         `ev(1, 2, 3)`,
+	"argkind":               `evint("s")`,
+	"argkind-meth":          `fobj.MI("s")`,
+	"store-kind":            `fobj.I = "s"`,
+	"store-kind-bool":       `fobj.B = 3`,
+	"store-value":           `fval.I = 3`,
+	"store-scalar":          `fnum = 3`,
+	"panic-func":            `boomfn()`,
+	"panic-func-if":         `if boomfn() { t = 1 }`,
+	"panic-func-arg":        `ev(boomfn())`,
+	"panic-func-return":     `return boomfn()`,
+	"panic-method":          `fobj.Boom()`,
+	"panic-conc":            "conc {\n boomfn()\n t = 1\n fobj.Boom()\n }",
+	"nil-func":              `nilfn()`,
+	"break-outside":         `break`,
+	"continue-outside":      `continue`,
+	"unbounded-for":         `for k = 0; k < 1; k += 0 { t = 1 }`,
+	"unbounded-nested":      "for k = 0; k < 3; k += 1 {\n for k = 0; k < 1; k += 1 { t = 1 }\n }",
+	"unbounded-continue":    `for k = 0; k < 1; k += 0 { continue }`,
+	"unbounded-continue-if": "for k = 0; k < 1; k += 0 {\n t = 1\n if k == 0 { continue }\n t = 2\n }",
+	"index-write-conc":      "conc {\n farr[9] = 1\n t = 1\n }",
+	"index-read-conc":       "conc {\n t = farr[9]\n u = 1\n }",
+	"store-kind-conc":       "conc {\n fobj.I = \"s\"\n t = 2\n }",
+	"argcount-conc":         "conc {\n ev(1, 2, 3)\n t = 1\n }",
+	"argkind-conc":          "conc {\n evint(\"s\")\n t = 1\n }",
+	"nil-deref-conc":        "conc {\n t = nilobj.I\n u = 1\n }",
+	"nil-func-conc":         "conc {\n nilfn()\n u = 1\n }",
+	"undef-func-conc":       "conc {\n nosuchfn(1)\n u = 1\n }",
+	"undef-method-conc":     "conc {\n fobj.NoSuch()\n u = 1\n }",
+	"panic-method-conc":     "conc {\n fobj.Boom()\n u = 1\n }",
+	"panic-three-conc":      "conc {\n fobj.In.Boom()\n u = 1\n }",
+	"range-noniter":         `forRange k := fobj { t = 1 }`,
+	"range-int":             `forRange k := fnum { t = 1 }`,
+	"four-level":            `t = fobj.In.X.Y`,
 }
 
 type FIn struct{ I int64 }
 
-func (f *FIn) M() int64 { return f.I }
+func (f *FIn) M() int64    { return f.I }
+func (f *FIn) Boom() int64 { panic("three level method panics") }
 
 type FObj struct {
 	I     int64
